@@ -33,6 +33,12 @@ import (
 //	            end = ok | err | panic | fin | cancel (the client sends a cancel batch instead of an input)
 //	            bad = this turn's f64 input is fractional (cast fails)
 //	    wire two = two float64 columns for a declared (int64,int64) input: the first casts, the second fails when bad
+//	    turn suffix :brk (pipe): the client goes away when this turn's handler starts, writing its output fails;
+//	    `unary pipe ... brk`: the same for a unary response
+//	transports pipex / httpx / httpxacc / httpxpre / httpxpost: a server with in-memory external storage
+//	    (threshold 1 byte: every non-empty batch is uploaded); acc/pre/post = max_externalized_response_bytes
+//	    set so that the upload is accepted / refused by the pre-flight / refused only after the upload
+//	kind prodh: a producer with a stream header
 //	castin <wire> <bad>    castRecordBatch on an input the framework allocator built, through the hook
 //	<shm> = 1: the call advertises a roomy shared-memory segment (pipe only), results travel as pointers;
 //	        2 (producers): wide-schema producer + a segment sized between AllocateAndWrite's estimate and
@@ -91,7 +97,42 @@ type c41Turn struct {
 	emits int
 	end   string
 	bad   bool
+	brk   bool // the peer goes away when this turn's handler starts: every later write fails
 }
+
+// c41BreakWriter is the client's side of a pipe that can go away: once broken every Write fails
+// the way a closed pipe does.
+type c41BreakWriter struct {
+	buf bytes.Buffer
+}
+
+func (w *c41BreakWriter) Write(p []byte) (int, error) {
+	if c41Broken {
+		return 0, fmt.Errorf("write |1: broken pipe")
+	}
+	return w.buf.Write(p)
+}
+
+// c41Store is an in-memory external storage backend: uploads always succeed.
+type c41Store struct {
+	n     int
+	bytes int64
+}
+
+func (s *c41Store) Upload(data []byte, _ *arrow.Schema, _ string) (string, error) {
+	s.n++
+	s.bytes += int64(len(data))
+	return fmt.Sprintf("https://c41-store.invalid/obj/%d", s.n), nil
+}
+
+// c41Header is the header of the header-bearing producer.
+type c41Header struct {
+	Note string `arrow:"note"`
+}
+
+var c41HeaderSchema = arrow.NewSchema([]arrow.Field{{Name: "note", Type: arrow.BinaryTypes.String}}, nil)
+
+func (c41Header) ArrowSchema() *arrow.Schema { return c41HeaderSchema }
 
 // the plan of the call in flight and what its handlers saw (Exec is single-threaded per case)
 var (
@@ -99,6 +140,8 @@ var (
 	c41Idx      int
 	c41Samples  []int64
 	c41Baseline int64
+	c41Broken   bool // the pipe's reader has gone away
+	c41ArmBreak bool // break the pipe when the (unary) handler starts
 )
 
 var c41ValueSchema = arrow.NewSchema([]arrow.Field{{Name: "value", Type: arrow.PrimitiveTypes.Int64}}, nil)
@@ -117,6 +160,9 @@ var c41WideSchema = arrow.NewSchema([]arrow.Field{{Name: "value", Type: arrow.Pr
 func c41Sample() {
 	n, _ := c41Outstanding()
 	c41Samples = append(c41Samples, n-c41Baseline)
+	if c41ArmBreak {
+		c41Broken = true
+	}
 }
 
 func c41RunTurn(out *vgirpc.OutputCollector) error {
@@ -129,6 +175,9 @@ func c41RunTurn(out *vgirpc.OutputCollector) error {
 	}
 	i := c41Idx
 	c41Idx++
+	if t.brk {
+		c41Broken = true
+	}
 	var first error
 	for j := 0; j < t.emits; j++ {
 		if err := out.EmitMap(map[string][]interface{}{"value": {int64(i)}}); err != nil && first == nil {
@@ -160,8 +209,14 @@ func (*c41Xch) Exchange(_ context.Context, _ arrow.RecordBatch, out *vgirpc.Outp
 	return c41RunTurn(out)
 }
 
-func c41Server() *vgirpc.Server {
+func c41Server(ext *vgirpc.ExternalLocationConfig) *vgirpc.Server {
 	s := vgirpc.NewServer()
+	if ext != nil {
+		s.SetExternalLocation(ext)
+	}
+	vgirpc.ProducerWithHeader(s, "prodh", c41ValueSchema, c41HeaderSchema, func(_ context.Context, _ *vgirpc.CallContext, p c41Params) (*vgirpc.StreamResult, error) {
+		return &vgirpc.StreamResult{OutputSchema: c41ValueSchema, State: &c41Prod{}, Header: c41Header{Note: "stream header"}}, nil
+	})
 	vgirpc.Unary(s, "echo", func(_ context.Context, _ *vgirpc.CallContext, p c41Params) (string, error) {
 		c41Sample()
 		return strings.Repeat("x", int(p.N)), nil
@@ -363,7 +418,16 @@ func c41ParseTurns(s string) []c41Turn {
 	for _, ts := range strings.Split(s, ";") {
 		p := strings.Split(ts, ":")
 		e, _ := strconv.Atoi(p[0])
-		out = append(out, c41Turn{emits: e, end: p[1], bad: len(p) > 2 && p[2] == "bad"})
+		t := c41Turn{emits: e, end: p[1]}
+		for _, fl := range p[2:] {
+			switch fl {
+			case "bad":
+				t.bad = true
+			case "brk":
+				t.brk = true
+			}
+		}
+		out = append(out, t)
 	}
 	return out
 }
@@ -376,7 +440,24 @@ func c41Exec(c *Case) {
 		}
 		return
 	}
-	srv := c41Server()
+	srv := c41Server(nil)
+	store := &c41Store{}
+	extCfg := vgirpc.DefaultExternalLocationConfig(store)
+	extCfg.ExternalizeThresholdBytes = 1 // every non-empty batch is uploaded
+	srvExt := c41Server(extCfg)
+	// an HTTP front for the external-storage server with the given max_externalized_response_bytes
+	extHTTP := func(cap int64) (*httptest.Server, func()) {
+		h := vgirpc.NewHttpServer(srvExt)
+		if cap > 0 {
+			h.SetMaxExternalizedResponseBytes(cap)
+		}
+		t := httptest.NewServer(h)
+		return t, t.Close
+	}
+	wrapperSize := c41Measure(func() func() {
+		b, _ := vgirpc.MakeExternalLocationBatch(c41ValueSchema, "https://c41-store.invalid/obj/0")
+		return b.Release
+	})
 	hs := vgirpc.NewHttpServer(srv)
 	ts := httptest.NewServer(hs)
 	defer ts.Close()
@@ -402,6 +483,8 @@ func c41Exec(c *Case) {
 		}
 		base, _ := c41Outstanding()
 		c41Baseline, c41Samples, c41Idx, c41Plan = base, nil, 0, nil
+		c41Broken, c41ArmBreak = false, false
+		uploadsBefore := store.n
 		shmKeys := func(on bool) ([]string, []string) {
 			if !on {
 				return nil, nil
@@ -456,6 +539,14 @@ func c41Exec(c *Case) {
 					break
 				}
 			}
+			if len(f) > 1 && (f[1] == "pipex" || strings.HasPrefix(f[1], "httpx")) {
+				// evidence that the external paths were really taken (distribution only)
+				if store.n > uploadsBefore {
+					c.Stat("ext-" + f[1] + "-uploaded")
+				} else {
+					c.Stat("ext-" + f[1] + "-no-upload")
+				}
+			}
 			c.Out(ml, fmt.Sprintf("samples=[%s] after=%d", strings.Join(parts, ","), after-base))
 		}
 		switch f[0] {
@@ -464,6 +555,32 @@ func c41Exec(c *Case) {
 			n, _ := strconv.ParseInt(f[3], 10, 64)
 			shm := f[4] == "1"
 			ml := fmt.Sprintf("unary %s %s %s r=%d", transport, method, f[4], c41ResultSize(srv, n))
+			c41ArmBreak = len(f) > 5 && f[5] == "brk" && strings.HasPrefix(transport, "pipe")
+			isExt := transport == "pipex" || strings.HasPrefix(transport, "httpx")
+			var extCap int64
+			if isExt && method == "echo" {
+				// what the external path will do with this result, from its sizes and the cap chosen
+				_, rs, _, _, _ := vgirpc.VerifC36Schemas(srv, "echo")
+				rb, _ := vgirpc.VerifC41SerializeResult(rs, strings.Repeat("x", int(n)))
+				predicted := vgirpc.VerifC35BatchBufferSize(rb)
+				var raw bytes.Buffer
+				rw := ipc.NewWriter(&raw, ipc.WithSchema(rb.Schema()))
+				_ = rw.Write(rb)
+				_ = rw.Close()
+				rb.Release()
+				mode := "uploaded"
+				switch {
+				case predicted < 1:
+					mode = "inline"
+				case transport == "httpxpre" && predicted >= 2:
+					extCap, mode = predicted-1, "pre"
+				case transport == "httpxpost" && int64(raw.Len()) > predicted:
+					extCap, mode = predicted, "post"
+				case transport == "httpxacc":
+					extCap = int64(raw.Len()) + 1000
+				}
+				ml = fmt.Sprintf("unaryx %s %s r=%d w=%d", transport, mode, c41ResultSize(srv, n), wrapperSize)
+			}
 			reqSchema := ps
 			target := method
 			if method == "badparams" {
@@ -482,15 +599,25 @@ func c41Exec(c *Case) {
 			} else {
 				params = c41ParamsBatch(reqSchema, n)
 			}
-			if transport == "pipe" {
+			if strings.HasPrefix(transport, "pipe") {
 				sk, sv := shmKeys(shm)
-				var in, out bytes.Buffer
+				var in bytes.Buffer
+				out := &c41BreakWriter{}
 				c41WriteRequest(&in, target, params, sk, sv)
-				srv.Serve(&in, &out)
+				if isExt {
+					srvExt.Serve(&in, out)
+				} else {
+					srv.Serve(&in, out)
+				}
 			} else {
 				url := ts.URL
 				if transport == "httpcap" {
 					url = tsCap.URL
+				}
+				if isExt {
+					t, closeT := extHTTP(extCap)
+					defer closeT()
+					url = t.URL
 				}
 				cl, err := vgirpc.NewHttpClient(url)
 				if err != nil {
@@ -516,6 +643,10 @@ func c41Exec(c *Case) {
 			}
 			emitSize := c41EmitSize()
 			method := "prod"
+			if kind == "prodh" {
+				method = "prodh"
+			}
+			isExt := transport == "pipex" || strings.HasPrefix(transport, "httpx")
 			inSchema := arrow.NewSchema(nil, nil)
 			if kind == "xch" {
 				method = "xch"
@@ -527,12 +658,42 @@ func c41Exec(c *Case) {
 				method = "prodwide"
 				emitSize = c41EmitSizeOf(c41WideSchema)
 			}
-			ml := fmt.Sprintf("stream %s %s %s %s e=%d c=%d %s", transport, kind, wire, f[4], emitSize, c41CastSize(wire), f[5])
+			// the turns as the model is told them: over HTTP with external storage the native client
+			// cannot follow an external-location answer, so an exchange ends after the first turn that
+			// is answered with data; with the pre-flight cap every emitting turn is refused (`:cap`)
+			mturns := strings.Split(f[5], ";")
+			var extCap int64
+			if strings.HasPrefix(transport, "httpx") {
+				oc := vgirpc.VerifC41NewCollector(c41ValueSchema, false)
+				_ = oc.EmitMap(map[string][]interface{}{"value": {int64(3)}})
+				predicted := vgirpc.VerifC35BatchBufferSize(vgirpc.VerifC41CollectorBatch(oc))
+				oc.VerifC41ReleaseBatches()
+				switch transport {
+				case "httpxpre":
+					extCap = predicted - 1
+					for i := range mturns {
+						mturns[i] += ":cap"
+					}
+				case "httpxacc":
+					extCap = 1 << 30
+				}
+				if kind == "xch" && transport != "httpxpre" {
+					for i, t := range turns {
+						castFails := wire == "str" || ((wire == "f64" || wire == "two") && t.bad)
+						if t.end == "ok" && t.emits == 1 && !castFails {
+							mturns = mturns[:i+1]
+							break
+						}
+					}
+				}
+			}
+			ml := fmt.Sprintf("stream %s %s %s %s e=%d c=%d %s", transport, kind, wire, f[4], emitSize, c41CastSize(wire), strings.Join(mturns, ";"))
 			params := c41ParamsBatch(ps, 1)
 			cancelMD := arrow.NewMetadata([]string{vgirpc.MetaCancel}, []string{"true"})
-			if transport == "pipe" {
+			if strings.HasPrefix(transport, "pipe") {
 				sk, sv := shmKeys(shm)
-				var in, out bytes.Buffer
+				var in bytes.Buffer
+				out := &c41BreakWriter{}
 				c41WriteRequest(&in, method, params, sk, sv)
 				iw := ipc.NewWriter(&in, ipc.WithSchema(inSchema))
 				for i, t := range turns {
@@ -552,9 +713,19 @@ func c41Exec(c *Case) {
 					b.Release()
 				}
 				_ = iw.Close()
-				srv.Serve(&in, &out)
+				if isExt {
+					srvExt.Serve(&in, out)
+				} else {
+					srv.Serve(&in, out)
+				}
 			} else {
-				cl, err := vgirpc.NewHttpClient(ts.URL)
+				url := ts.URL
+				if isExt {
+					t, closeT := extHTTP(extCap)
+					defer closeT()
+					url = t.URL
+				}
+				cl, err := vgirpc.NewHttpClient(url)
 				if err != nil {
 					panic(err)
 				}
@@ -578,7 +749,11 @@ func c41Exec(c *Case) {
 						st.Close()
 					}
 				} else {
-					st, err := cl.OpenProducer(ctx, method, params, vgirpc.ClientStreamSchema{Output: c41ValueSchema})
+					sch := vgirpc.ClientStreamSchema{Output: c41ValueSchema}
+					if kind == "prodh" {
+						sch.Header = c41HeaderSchema
+					}
+					st, err := cl.OpenProducer(ctx, method, params, sch)
 					if err == nil {
 						for i := 0; i < len(turns)+2; i++ {
 							if i < len(turns) && turns[i].end == "cancel" {
@@ -658,17 +833,21 @@ func c41Gen(g *Gen) {
 				continue
 			}
 			if r.Chance(35) {
-				transport := Pick(r, []string{"pipe", "pipe", "http", "http", "httpcap"})
+				transport := Pick(r, []string{"pipe", "pipe", "http", "http", "httpcap", "pipex", "httpx", "httpxacc", "httpxpre", "httpxpost"})
 				method := Pick(r, []string{"echo", "echo", "echo", "fail", "boom", "void", "badparams"})
 				shm := 0
 				if transport == "pipe" && r.Chance(30) {
 					shm = 1
 				}
-				lines = append(lines, fmt.Sprintf("unary %s %s %d %d", transport, method, Pick(r, []int{0, 1, 10, 100, 700, 5000}), shm))
+				line := fmt.Sprintf("unary %s %s %d %d", transport, method, Pick(r, []int{0, 1, 10, 100, 700, 5000}), shm)
+				if strings.HasPrefix(transport, "pipe") && r.Chance(25) {
+					line += " brk" // the client goes away before the response is written
+				}
+				lines = append(lines, line)
 				continue
 			}
-			transport := Pick(r, []string{"pipe", "http"})
-			kind := Pick(r, []string{"prod", "xch", "xch"})
+			transport := Pick(r, []string{"pipe", "pipe", "http", "http", "pipex", "httpx", "httpxacc", "httpxpre"})
+			kind := Pick(r, []string{"prod", "xch", "xch", "xch", "prodh"})
 			wire := "i64"
 			if kind == "xch" {
 				wire = Pick(r, []string{"i64", "i32", "i32", "f64", "f64", "str", "two", "two"})
@@ -694,9 +873,9 @@ func c41Gen(g *Gen) {
 					end, emits = "err", r.Intn(2)
 				case x < 84:
 					end, emits = "panic", r.Intn(2)
-				case x < 90 && kind == "prod":
+				case x < 90 && kind != "xch":
 					end, emits = "fin", r.Intn(2)
-				case x < 95 && !(transport == "http" && kind == "prod"):
+				case x < 95 && !(strings.HasPrefix(transport, "http") && kind != "xch"):
 					// (over HTTP a producer runs ahead of the client inside one request, so where a
 					// client-side cancel lands is not scriptable; exchanges are lockstep)
 					end = "cancel"
@@ -704,6 +883,9 @@ func c41Gen(g *Gen) {
 				ts := fmt.Sprintf("%d:%s", emits, end)
 				if (wire == "f64" || wire == "two") && r.Chance(20) {
 					ts += ":bad"
+				}
+				if strings.HasPrefix(transport, "pipe") && r.Chance(12) {
+					ts += ":brk" // the client goes away while this turn runs: its output cannot be written
 				}
 				turns = append(turns, ts)
 			}
